@@ -542,6 +542,8 @@ class Tally:
     def __init__(self, c):
         self.c = c
         self.worst = {}
+        self.by_type = {}
+        self.sampled = set()
 
     def compare(self, case, kind, obs, exp, sens, files, period=None, detail="", exact=False):
         """returns 'ok', 'viol' or 'inconc'"""
@@ -566,6 +568,12 @@ class Tally:
                 w[1] = max(w[1], dev / tol)
             c.nontrivial("%s|%s|%s" % (case["ctype"], case["label"], kind))
             c.bump("comparisons_" + kind)
+            if not case["combo"]:
+                self.by_type.setdefault(case["ctype"], set()).add(kind)
+            if kind not in self.sampled:
+                self.sampled.add(kind)
+                c.sample({"component": case["ctype"], "options": case["label"], "kind": kind, "cell": bool(case["cell"]),
+                          "observed": obs[:4], "expected": exp[:4], "deviation": dev, "tolerance": tol}, cap=14)
             return "ok"
         c.violation(key, "observed %s expected %s dev %.3g tol %.3g (sens %.3g) cell=%s %s" % (
             [float("%.15g" % x) for x in obs[:6]], [float("%.15g" % x) for x in exp[:6]], dev, tol, sens,
@@ -779,6 +787,7 @@ def check_optimality(c, tl, case, obs, mres, files, rng):
             return
         c.nontrivial("%s|%s|optimality" % (ctype, case["label"]))
         c.bump("comparisons_optimality")
+        tl.by_type.setdefault(ctype, set()).add("optimality")
 
 
 # ---------------------------------------------------------------------------------------------
@@ -787,7 +796,7 @@ def check_optimality(c, tl, case, obs, mres, files, rng):
 
 def plan(c, tier):
     rng = c.rng
-    reps = 2 if tier == "quick" else 40
+    reps = 4 if tier == "quick" else 40
     cases = []
     idx = 0
     osets = option_sets()
@@ -879,6 +888,7 @@ def run(tier, replay):
                             break
 
     c.extra["worst_rel_dev"] = {k: {"relative_deviation": v[0], "fraction_of_tolerance": v[1]} for k, v in tl.worst.items()}
+    c.extra["conclusive_kinds_by_component_type"] = {k: sorted(v) for k, v in sorted(tl.by_type.items())}
     l2 = sorted(c.extra.get("types_L2", []))
     l1 = sorted(c.extra.get("types_L1", []))
     allc = list(corpus.COMPONENTS) + list(corpus.EXTRA_COMPONENTS)
